@@ -11,6 +11,7 @@ import (
 	"sort"
 	"strings"
 	"sync"
+	"sync/atomic"
 
 	"golang.org/x/tools/go/ssa"
 
@@ -265,7 +266,7 @@ type Ctx struct {
 	Contracts    map[string]Contract
 	Inline       func(caller, callee *ssa.Function) bool
 	Loops        func(fn *ssa.Function, loopOrdinal int) *LoopSpec
-	mu           sync.Mutex
+	mu           sync.Mutex // guards globals, globalHeap, initDone, initFinished, Notes (read from parallel jobs)
 	objN         int
 	symN         int
 	globals      map[*ssa.Global]*Object
@@ -650,7 +651,10 @@ func (fx *FnExec) heapGet(st *State, o *Object) Value {
 	if v, ok := st.Heap[o]; ok {
 		return v
 	}
-	if v, ok := fx.Cx.globalHeap[o]; ok {
+	fx.Cx.mu.Lock()
+	v, ok := fx.Cx.globalHeap[o]
+	fx.Cx.mu.Unlock()
+	if ok {
 		return v
 	}
 	panic(Unsupported{"object without heap value: " + o.Name})
@@ -795,14 +799,17 @@ func (cx *Ctx) initPackage(p *ssa.Package) {
 		return
 	}
 	initMu.Lock()
-	initGID = curGID()
-	defer func() { initGID = 0; initMu.Unlock() }()
+	atomic.StoreInt64(&initGID, curGID())
+	defer func() { atomic.StoreInt64(&initGID, 0); initMu.Unlock() }()
 	cx.initPackageLocked(p)
 }
 
 var initGID int64
 
-func (cx *Ctx) initOwner() bool { return initGID != 0 && initGID == curGID() }
+func (cx *Ctx) initOwner() bool {
+	g := atomic.LoadInt64(&initGID)
+	return g != 0 && g == curGID()
+}
 
 func curGID() int64 {
 	var buf [64]byte
